@@ -20,9 +20,10 @@ package main
 //   reader ops  (0 n) Next (1 n) Peek (2 n) Skip (3 k) ReadBinary (4) ReadLen (5) Release (6 t sizes) thrift.SkipDecoder.Next(t)
 //   writer ops  (0 n) Malloc (1 bytes capextra) WriteBinary (2 k off bytes) store into region k (3) Flush (4) WrittenLen
 //   skip ops    (0 t sizes) Next(t) (1 n) SkipN (2 data final with chunks) Reset(new source)
-// output  ((out state allocs cots after live nids)* callerok)
+// output  ((out state allocs cots pcots after live nids)* callerok)
 //   state  reader: (cur ri ro (pend*))  writer: (cur (pend*) nocache errset target)  skip: (cur n)   cur/pend/target = () | (id off len cap)
 //   allocs ids of the blocks that newly appeared in the object's hands during the op, in order
+//   pcots  like cots, per mcache.Malloc/Free of the op (empty unless built with the instrumented mcache)
 //   cots   per callback of the op: ((class id off)*) interesting blocks the co-tenant obtained;  after: the same after the op
 //   live   1 iff every retained slice still has its expected contents (and regions are pairwise disjoint)
 //   nids   number of block ids assigned so far
@@ -80,7 +81,10 @@ type c09Sess struct {
 	snap     func() []bufiox.VerifOwnBuf // current buffer first (if any), then parked ones
 	opAllocs VL
 	opCots   VL
+	opPool   VL // co-tenant runs at pool operations (only with the instrumented mcache)
 	cotRuns  int
+	inCot    bool
+	closed   bool
 }
 
 func (s *c09Sess) lookup(p uintptr) (int, int, bool) {
@@ -161,9 +165,33 @@ func (s *c09Sess) cotRun() V {
 }
 
 func (s *c09Sess) callback() {
+	s.inCot = true
 	s.observe()
 	s.opCots = append(s.opCots, s.cotRun())
+	s.inCot = false
 }
+
+// poolPoint runs at every mcache.Malloc (entry) and accepted mcache.Free (exit) of the object
+// when the harness is built with the instrumented mcache (check builds it that way for C09).
+func (s *c09Sess) poolPoint() {
+	if s.inCot || s.closed {
+		return
+	}
+	s.inCot = true
+	s.observe()
+	s.opPool = append(s.opPool, s.cotRun())
+	s.inCot = false
+}
+
+func (s *c09Sess) close() {
+	s.closed = true
+	if c09SetPoolHook != nil {
+		c09SetPoolHook(nil)
+	}
+}
+
+// c09SetPoolHook is provided by c09_mcachehook.go (build tag verif_mcache); nil otherwise.
+var c09SetPoolHook func(f func())
 
 // finish one op: final snapshot, state, co-tenant, live check
 func (s *c09Sess) endOp(out V, state func() V, liveok func() bool) V {
@@ -177,11 +205,18 @@ func (s *c09Sess) endOp(out V, state func() V, liveok func() bool) V {
 	if cots == nil {
 		cots = VL{}
 	}
+	s.inCot = true
 	after := s.cotRun()
+	s.inCot = false
 	if after == nil {
 		after = VL{}
 	}
-	return Ls(out, st, allocs, cots, after, Bo(liveok()), I(len(s.ranges)))
+	pcots := s.opPool
+	s.opPool = nil
+	if pcots == nil {
+		pcots = VL{}
+	}
+	return Ls(out, st, allocs, cots, pcots, after, Bo(liveok()), I(len(s.ranges)))
 }
 
 var c09Once sync.Once
@@ -193,8 +228,13 @@ func c09NewSess() *c09Sess {
 	})
 	runtime.GC() // between cases only: within a case no address is ever reused
 	s := &c09Sess{prevHeld: map[int]bool{}}
+	s.inCot = true
 	s.cotRun() // warm-up: the pools hold dirty blocks
+	s.inCot = false
 	s.cotRuns = 0
+	if c09SetPoolHook != nil {
+		c09SetPoolHook(s.poolPoint)
+	}
 	return s
 }
 
@@ -402,6 +442,7 @@ func c09RunReader(kind int, p []V, ops []V) V {
 		lk := liveok
 		outs = append(outs, s.endOp(out, state, func() bool { return lk && c09LiveOK(live) }))
 	}
+	s.close()
 	callerok := string(arr) == string(pristine)
 	runtime.KeepAlive(arr)
 	return Ls(outs, Bo(callerok))
@@ -625,6 +666,7 @@ func c09RunWriter(kind int, p []V, ops []V) V {
 		lk := liveok
 		outs = append(outs, s.endOp(out, state, func() bool { return lk && regsOK() }))
 	}
+	s.close()
 	callerok := string(arr[:protected]) == string(pristine[:protected])
 	for _, pl := range payloads {
 		if string(pl[0]) != string(pl[1]) {
@@ -692,6 +734,7 @@ func c09RunSkip(p []V, ops []V) V {
 		}
 		outs = append(outs, s.endOp(out, state, func() bool { return c09LiveOK(live) }))
 	}
+	s.close()
 	return Ls(outs, Bo(true))
 }
 
